@@ -113,6 +113,7 @@ func (e *Engine) Solve(obls []*Obligation, cfg SolveCfg) {
 			base = base[:180]
 		}
 		o.Hyps = append(o.Hyps, e.umulZeroFacts(o)...)
+		o.Hyps = append(o.Hyps, e.constMulFacts(o)...)
 		qfh := e.PrepareQF(o)
 		qf := base + ".qf.smt2"
 		os.WriteFile(qf, []byte(e.tb.Script(qfh, nil, true, false)), 0o644)
@@ -299,6 +300,75 @@ func (e *Engine) umulZeroFacts(o *Obligation) []*Term {
 	}
 	if o.Goal != nil {
 		walk(o.Goal)
+	}
+	return out
+}
+
+
+// constMulFacts: for ground products x*c and y*c by the same small constant c (element strides), the true facts
+// 0 <= x < y < 2^40 ==> x*c + c <= y*c < 2^60 (no wrap-around below 2^40 elements), so that the solver need not rediscover
+// the monotonicity of a constant multiplier by bit-blasting.
+func (e *Engine) constMulFacts(o *Obligation) []*Term {
+	tb := e.tb
+	seen := map[*Term]bool{}
+	groups := map[string][]*Term{}
+	consts := map[string]*Term{}
+	var order []string
+	var walk func(t *Term)
+	walk = func(t *Term) {
+		if seen[t] {
+			return
+		}
+		seen[t] = true
+		if t.Op == "bvmul" && !t.hasBV && t.Sort == BV64 {
+			for i := 0; i < 2; i++ {
+				c, x := t.Args[i], t.Args[1-i]
+				if c.IsConst() && !x.IsConst() && c.Val.BitLen() <= 16 && c.Val.Sign() > 0 && c.Val.Int64() != 1 {
+					k := c.Val.String()
+					dup := false
+					for _, y := range groups[k] {
+						if y == x {
+							dup = true
+						}
+					}
+					if !dup && len(groups[k]) < 7 {
+						if len(groups[k]) == 0 {
+							order = append(order, k)
+						}
+						groups[k] = append(groups[k], x)
+						consts[k] = c
+					}
+				}
+			}
+		}
+		for _, a := range t.Args {
+			walk(a)
+		}
+	}
+	for _, h := range o.Hyps {
+		walk(h)
+	}
+	if o.Goal != nil {
+		walk(o.Goal)
+	}
+	var out []*Term
+	zero := tb.BVI(64, 0)
+	lim := tb.BVU(64, 1<<40)
+	for _, k := range order {
+		c := consts[k]
+		xs := groups[k]
+		for _, x := range xs {
+			out = append(out, tb.Implies(tb.And(tb.SLe(zero, x), tb.SLt(x, lim)), tb.ULt(tb.Mul(x, c), tb.BVU(64, 1<<60))))
+		}
+		for i := 0; i < len(xs); i++ {
+			for j := 0; j < len(xs); j++ {
+				if i == j {
+					continue
+				}
+				x, y := xs[i], xs[j]
+				out = append(out, tb.Implies(tb.And(tb.SLe(zero, x), tb.SLt(x, y), tb.SLt(y, lim)), tb.ULe(tb.Add(tb.Mul(x, c), c), tb.Mul(y, c))))
+			}
+		}
 	}
 	return out
 }
